@@ -76,6 +76,10 @@ def strings_cases():
             for bit in (b'0', b'1'):
                 yield mk + [[b'setbit', b'k', off, bit], [b'get', b'k'], [b'exists', b'k'], [b'strlen', b'k']]
         yield mk + [[b'append', b'k', b''], [b'exists', b'k'], [b'get', b'k']]
+        # offsets around and beyond the 512 MB limit: an empty payload only reports the length, whatever the offset
+        for off in (b'536870911', b'536870912', b'536870913', b'9223372036854775807'):
+            yield mk + [[b'setrange', b'k', off, b''], [b'strlen', b'k']]
+        yield mk + [[b'setrange', b'k', b'536870912', b'x'], [b'setrange', b'k', b'536870910', b'xyz'], [b'setrange', b'k', b'9223372036854775807', b'x'], [b'strlen', b'k']]
     big = [b'9223372036854775807', b'-9223372036854775808', b'9223372036854775806', b'0', b'-1', b'10', b' 1', b'1.0', b'abc', b'']
     for stored in big:
         for inc in [b'1', b'-1', b'9223372036854775807', b'-9223372036854775808', b'0', b'2']:
@@ -130,7 +134,7 @@ def zsets_cases():
                 yield mk + [[b'zrange', b'z', a, b, b'withscores']]
                 yield mk + [[b'zrevrange', b'z', a, b]]
                 yield mk + [[b'zremrangebyrank', b'z', a, b], [b'zrange', b'z', b'0', b'-1'], [b'exists', b'z']]
-        bounds = [b'-inf', b'+inf', b'1', b'(1', b'2', b'(2', b'3', b'(inf', b'inf']
+        bounds = [b'-inf', b'+inf', b'1', b'(1', b'2', b'(2', b'3', b'(inf', b'inf', b'(-inf', b'(+inf']
         for lo in bounds:
             for hi in bounds:
                 yield mk + [[b'zrangebyscore', b'z', lo, hi], [b'zcount', b'z', lo, hi], [b'zrevrangebyscore', b'z', hi, lo, b'withscores']]
@@ -149,6 +153,16 @@ def zsets_cases():
                     yield base + [[op, b'd', b'2', b'a', b'b', b'weights', w1, w2] + agg, [b'zrange', b'd', b'0', b'-1', b'withscores'],
                                   [b'zcount', b'd', b'-inf', b'+inf']]
         yield [[b'sadd', b's', b'm1', b'm2'], [b'zadd', b'a', b'3', b'm1']] + [[b'zunionstore', b'd', b'2', b's', b'a'] + agg, [b'zrange', b'd', b'0', b'-1', b'withscores']]
+    # floating-point addition is not associative: the order in which the sources are folded (ascending cardinality) is observable
+    import itertools
+    big = {b'A': [b'zadd', b'A', b'1e16', b'm', b'1', b'a1', b'2', b'a2'], b'C': [b'zadd', b'C', b'-1e16', b'm', b'1', b'c1'], b'B': [b'zadd', b'B', b'1', b'm'],
+           b'S': [b'sadd', b'S', b'm', b's1', b's2', b's3']}
+    for op in (b'zunionstore', b'zinterstore'):
+        for names in itertools.permutations([b'A', b'C', b'B']):
+            for tail in ([], [b'weights', b'1', b'1', b'1'], [b'weights', b'2', b'2', b'0.5'], [b'aggregate', b'max'], [b'aggregate', b'min']):
+                yield list(big.values()) + [[op, b'd', b'3'] + list(names) + tail, [b'zscore', b'd', b'm'], [b'zrange', b'd', b'0', b'-1', b'withscores']]
+        for names in itertools.permutations([b'A', b'C', b'B', b'S']):
+            yield list(big.values()) + [[op, b'd', b'4'] + list(names), [b'zscore', b'd', b'm'], [b'zcard', b'd']]
     lex = [b'-', b'+', b'[a', b'(a', b'[b', b'(b', b'[c', b'(c', b'[', b'(zz']
     mk = [[b'zadd', b'z', b'0', b'a', b'0', b'b', b'0', b'c', b'0', b'd']]
     for lo in lex:
@@ -192,6 +206,11 @@ def ttl_cases():
             # the same with the clock moved past the deadline before and after the action
             yield pre + [('adv', 100001)] + a + after
             yield pre + a + [('adv', 100001)] + after + [[b'dbsize'], [b'keys', b'*']]
+            # the whole-keyspace views first (they must not show an expired key that nobody has looked up yet), in every database the key may have gone to
+            whole = [[b'dbsize'], [b'keys', b'*'], [b'scan', b'0', b'count', b'100'], [b'randomkey']]
+            travels = any(isinstance(f, list) and f[0] in (b'move', b'swapdb', b'rename', b'renamenx', b'restore', b'smove') for f in a)
+            case = pre + a + [('adv', 100001)] + whole + [[b'select', b'1']] + whole + [[b'select', b'0']] + after
+            yield Always(case) if travels else case
             if not any(f[0] in (b'multi', b'exec') for f in a if isinstance(f, list)):
                 # one clock reading for the whole block
                 yield pre + [[b'multi']] + a + after + [[b'setnx', b'k', b'again'], [b'dbsize'], [b'exec']] + after
@@ -345,11 +364,13 @@ def sort_cases():
     ALPHA, LIMIT, GET, STORE on a small scale"""
     import itertools
     mk = [[b'rpush', b'l', b'3', b'1', b'2', b'1'], [b'zadd', b'z', b'1', b'3', b'2', b'1', b'3', b'2'], [b'sadd', b's', b'7'],
-          [b'mset', b'w_1', b'30', b'w_2', b'20', b'w_3', b'10', b'd_1', b'one', b'd_2', b'two'], [b'hset', b'h_1', b'f', b'5'], [b'hset', b'h_2', b'f', b'4'], [b'hset', b'h_3', b'f', b'6']]
-    bys = [[], [b'by', b'nosort'], [b'by', b'w_*'], [b'by', b'h_*->f'], [b'by', b'nosort', b'by', b'w_*'], [b'by', b'w_*', b'by', b'nosort'], [b'by', b'h_*->'], [b'BY', b'nokey_*']]
+          [b'mset', b'w_1', b'30', b'w_2', b'20', b'w_3', b'10', b'd_1', b'one', b'd_2', b'two', b'w_1->', b'1', b'w_2->', b'3', b'w_3->', b'2', b'h_1->f->', b'9'],
+          [b'hset', b'h_1', b'f', b'5', b'', b'50', b'f->', b'7'], [b'hset', b'h_2', b'f', b'4', b'', b'40'], [b'hset', b'h_3', b'f', b'6', b'', b'60'],
+          [b'hset', b'w_1', b'', b'100'] if False else [b'hset', b'hh_1', b'', b'1']]
+    bys = [[], [b'by', b'nosort'], [b'by', b'w_*'], [b'by', b'h_*->f'], [b'by', b'nosort', b'by', b'w_*'], [b'by', b'w_*', b'by', b'nosort'], [b'by', b'h_*->'], [b'BY', b'nokey_*'], [b'by', b'w_*->'], [b'by', b'h_*->f->'], [b'by', b'->*']]
     orders = [[], [b'desc'], [b'asc'], [b'alpha'], [b'alpha', b'desc']]
     limits = [[], [b'limit', b'0', b'2'], [b'limit', b'1', b'-1'], [b'limit', b'2', b'5'], [b'limit', b'9', b'1'], [b'limit', b'-1', b'2']]
-    gets = [[], [b'get', b'#'], [b'get', b'd_*', b'get', b'#'], [b'get', b'h_*->f']]
+    gets = [[], [b'get', b'#'], [b'get', b'd_*', b'get', b'#'], [b'get', b'h_*->f'], [b'get', b'w_*->'], [b'get', b'h_*->']]
     for src in (b'l', b'z', b's', b'missing'):
         for by, od, lim, gt in itertools.product(bys, orders, limits, gets):
             if len(lim) and len(gt) > 2 and len(by) > 2:
@@ -359,3 +380,28 @@ def sort_cases():
             yield mk + [[b'sort', src] + by + od + [b'store', b'dst'], [b'lrange', b'dst', b'0', b'-1'], [b'type', b'dst']]
     yield mk + [[b'sort', b'w_1'], [b'sort', b'h_1', b'by', b'nosort'], [b'sort', b'l', b'limit', b'0'], [b'sort', b'l', b'limit', b'a', b'1'], [b'sort', b'l', b'foo'],
                 [b'rpush', b'bad', b'1', b'x'], [b'sort', b'bad'], [b'sort', b'bad', b'alpha'], [b'sort', b'bad', b'by', b'nosort'], [b'sort', b'bad', b'store', b'dst2'], [b'exists', b'dst2']]
+
+
+# ------------------------------------------------------------------ DUMP / RESTORE (C01)
+
+def dump_cases():
+    """RESTORE of a DUMP payload yields an independent copy with the requested TTL: the same payload restored twice (two keys, the same key
+    again after DEL / with REPLACE), one copy mutated, all copies and the original read back"""
+    mutate = {'string': [b'append', b'K', b'!'], 'list': [b'rpush', b'K', b'new'], 'set': [b'sadd', b'K', b'new'], 'hash': [b'hset', b'K', b'nf', b'nv'],
+              'zset': [b'zadd', b'K', b'9', b'new']}
+    read = {'string': [b'get', b'K'], 'list': [b'lrange', b'K', b'0', b'-1'], 'set': [b'scard', b'K'], 'hash': [b'hlen', b'K'], 'zset': [b'zrange', b'K', b'0', b'-1', b'withscores']}
+
+    def at(f, k):
+        return [k if x == b'K' else x for x in f]
+    for t, mk in TYPES.items():
+        if t not in mutate:
+            continue
+        reads = [at(read[t], k) for k in (b'k', b'c1', b'c2')] + [[b'ttl', b'c1'], [b'ttl', b'c2'], [b'type', b'c1']]
+        for ttl in (b'0', b'5000'):
+            for who in (b'c1', b'c2', b'k'):
+                yield mk + [[b'dump', b'k'], [b'restore', b'c1', ttl, b'@PAYLOAD'], [b'restore', b'c2', b'0', b'@PAYLOAD'], at(mutate[t], who)] + reads
+            yield mk + [[b'dump', b'k'], [b'restore', b'c1', ttl, b'@PAYLOAD'], at(mutate[t], b'c1'), [b'del', b'c1'], [b'restore', b'c1', b'0', b'@PAYLOAD']] + reads
+            yield mk + [[b'dump', b'k'], [b'restore', b'c1', ttl, b'@PAYLOAD'], at(mutate[t], b'c1'), [b'restore', b'c1', ttl, b'@PAYLOAD', b'REPLACE'], [b'restore', b'c1', b'0', b'@PAYLOAD']] + reads
+            yield mk + [[b'dump', b'k'], [b'select', b'3'], [b'restore', b'c1', ttl, b'@PAYLOAD'], at(mutate[t], b'c1'), [b'select', b'0'], [b'restore', b'c1', b'0', b'@PAYLOAD']] + reads
+        yield mk + [[b'dump', b'k'], [b'restore', b'k', b'0', b'@PAYLOAD'], [b'restore', b'c1', b'-1', b'@PAYLOAD'], [b'restore', b'c1', b'x', b'@PAYLOAD'], [b'restore', b'c1', b'0', b'@PAYLOAD', b'absttl'],
+                    [b'multi'], [b'restore', b'c2', b'100', b'@PAYLOAD'], at(mutate[t], b'c2'), [b'ttl', b'c2'], [b'exec']] + reads
